@@ -81,6 +81,16 @@ def make_data(case):
     return xs, ys, fb, truth
 
 
+def parse_prior(s):
+    """'value(err)' as documented, parsed from the written text (independent of the library):
+    an error without a decimal point behind a value with decimals counts in units of the last written digit"""
+    vtxt, etxt = s.rstrip(')').split('(')
+    v, e = float(vtxt), float(etxt)
+    if '.' in vtxt and '.' not in etxt:
+        e = e * 10.0 ** (-len(vtxt.split('.')[1]))
+    return v, e
+
+
 def gls(case, xs, ys, fb, priors):
     """closed form: returns (parameters as Q objects, chisq, dof)"""
     keys = sorted(xs)
@@ -148,9 +158,18 @@ def check_case(ctx, case):
                 pv, pe_ = truth[i] + 0.05, rng.choice([0.1, 0.25, 0.5])
                 kind = case['prior_kind']
                 if kind == 'str':
-                    s = '%.2f(%d)' % (pv, int(round(pe_ * 100)))
-                    from pyerrors.fits import _extract_val_and_dval
-                    v2, d2 = _extract_val_and_dval(s)
+                    # the documented short-hand in all its written forms: trailing zeros, 1-3 decimals,
+                    # error in units of the last written digit or with its own decimal point, integers
+                    form = rng.choice(['digits', 'digits', 'digits', 'decimal', 'integer'])
+                    if form == 'digits':
+                        nd = rng.choice([1, 2, 3])
+                        pv = round(rng.choice([pv, round(pv, 1), round(pv, 1) + 0.1]), nd)
+                        s = '%.*f(%d)' % (nd, pv, max(1, int(round(pe_ * 10 ** nd))))
+                    elif form == 'decimal':
+                        s = '%.2f(%.2f)' % (pv, pe_)
+                    else:
+                        s = '%d(%d)' % (int(round(pv)) , rng.choice([1, 2]))
+                    v2, d2 = parse_prior(s)
                     po = pe.cov_Obs(v2, d2 ** 2, 'prior%d' % i)
                     pd_[i] = s
                     priors[i] = (v2, d2, po)
@@ -229,6 +248,17 @@ def check_case(ctx, case):
             probs.append(('violation', 'chisquare', '%r vs %r' % (res.chisquare, chisq)))
         if res.dof != dof:
             probs.append(('violation', 'dof', '%r vs points - parameters + priors = %r' % (res.dof, dof)))
+        if case['correlated'] and dof > 0:
+            # Hotelling t^2: the covariance was estimated from n_cov samples = the smallest N of the fitted points
+            from scipy.stats import f as fdist
+            allpts = [o for k in (keys if case['combined'] else keys[:1]) for o in ys[k]]
+            n_cov = min(o.N for o in allpts)
+            if not hasattr(res, 't2_p_value'):
+                probs.append(('violation', 't2-p-value-missing', ''))
+            elif n_cov - dof > 0:
+                ref = float(1 - fdist.cdf((n_cov - dof) / (dof * (n_cov - 1)) * res.chisquare, dof, n_cov - dof))
+                if not close(res.t2_p_value, ref, rtol=1e-8, scale=1.0):
+                    probs.append(('violation', 't2-p-value', '%r vs %r (n_cov=%d, N of the points %r)' % (res.t2_p_value, ref, n_cov, sorted(set(o.N for o in allpts)))))
         if hasattr(res, 'p_value') and dof > 0:
             from scipy.stats import chi2
             if not close(res.p_value, float(1 - chi2.cdf(res.chisquare, dof)), rtol=1e-8, scale=1.0):
